@@ -105,6 +105,7 @@ fn finish(p: &Prog, pos: usize, vs: &[usize], body: &[PG], states: &[Vec<T>], li
     }
     // reference: per reaching state, the body with the projected variables standing for their walked values
     let mut want: Vec<String> = vec![];
+    let mut indep: Vec<Prog> = vec![];
     for s in states {
         // re-create the state: every program variable unified with its walked value (fresh variables of the
         // prefix become new hidden variables), then the substituted body, then the rest of the program
@@ -121,13 +122,51 @@ fn finish(p: &Prog, pos: usize, vs: &[usize], body: &[PG], states: &[Vec<T>], li
             RunOut::Answers(a, _) => want.extend(a.iter().map(|x| x.show(""))),
             _ => return (line, None, false, fuel, kf),
         }
+        // the reference program is run by the same engine, so a defect in machinery that project SHARES with everything
+        // else (walk*, reification) shows on both sides; when the program lies in the fragment of the independent
+        // interpreter (no type test left after substitution; disequalities are checked there as pending pairs) its answers are compared with that one too
+        indep.push(q);
+    }
+    let mut indep_want: Option<Vec<String>> = Some(vec![]);
+    for q in &indep {
+        fn pure(g: &PG) -> bool {
+            match g {
+                PG::Eq(..) | PG::Neq(..) | PG::Succ | PG::Fail => true,
+                PG::Conj(gs) => gs.iter().all(pure),
+                PG::Conde(cs) => cs.iter().all(|c| c.iter().all(pure)),
+                PG::Fresh(b) => pure(b),
+                PG::Call(r, _) => r == "member" || r == "append",
+                _ => false,
+            }
+        }
+        if !q.body.iter().all(pure) {
+            indep_want = None;
+            break;
+        }
+        match crate::search::ref_answers(q, 12) {
+            Some(a) => indep_want.as_mut().unwrap().extend(a),
+            None => {
+                indep_want = None;
+                break;
+            }
+        }
     }
     let got: Vec<String> = if line == "none" { vec![] } else { line.split(" || ").map(|x| x.to_string()).collect() };
-    let fail = if multiset(&want) != multiset(&got) {
+    let mut fail = if multiset(&want) != multiset(&got) {
         Some(format!("project did not see the current value of the projected variables: expected [{}], got [{}]", multiset(&want).join(" | "), multiset(&got).join(" | ")))
     } else {
         None
     };
+    if fail.is_none() {
+        if let Some(w) = indep_want {
+            // answers of the independent interpreter carry no constraint fields: compare the term part
+            let strip = |l: &String| l.split(" @ ").next().unwrap_or("").to_string();
+            let (a, b) = (multiset(&w.iter().map(strip).collect::<Vec<_>>()), multiset(&got.iter().map(strip).collect::<Vec<_>>()));
+            if a != b {
+                fail = Some(format!("the answers differ from those of the independent interpreter run on the program with the project goal replaced by its body: expected [{}], got [{}]", a.join(" | "), b.join(" | ")));
+            }
+        }
+    }
     (line, fail, !got.is_empty(), fuel, kf)
 }
 
